@@ -4,7 +4,7 @@ import json, os, re, shutil, subprocess, sys, tempfile
 from concurrent.futures import ThreadPoolExecutor
 
 ROOT = "/verif"
-ids = sys.argv[1:] or sorted(os.listdir(f"{ROOT}/seeded"))
+ids = sys.argv[1:] or sorted(d for d in os.listdir(f"{ROOT}/seeded") if os.path.isdir(f"{ROOT}/seeded/{d}"))
 
 
 def run(sid: str) -> dict:
